@@ -16,6 +16,7 @@ import (
 	"math/rand"
 	"net"
 	"runtime"
+	"strings"
 	"time"
 
 	"github.com/andybalholm/brotli"
@@ -465,8 +466,9 @@ func judge(c *vh.Ctx, s scenario, res tls.VerifC21Result) {
 	}
 	var ob string
 	if accepted {
-		s1, s2 := adler(res.Msg)
-		ob = fmt.Sprintf("(OOk %d %d %d %s)", len(res.Msg), s1, s2, vh.Opt(len(res.Msg) <= 700, vh.Bytes(res.Msg)))
+		// the recovered certificate message is a VALUE: it is kept, compared again after every later decompression, and the
+		// observation the model is compared with is taken from the kept entries at the end of the run
+		ob = hold(s.key, res.Certs, res.Msg)
 	} else {
 		ob = fmt.Sprintf("(OAlert %d)", res.Alert)
 	}
@@ -477,10 +479,95 @@ func judge(c *vh.Ctx, s scenario, res tls.VerifC21Result) {
 	}
 	term := fmt.Sprintf("CRun %s %s %d %d %s %s %s %s %s %s %s", vh.Bool(rp.eofEarly), vh.List(adv), s.alg, s.declared, vh.Bool(rp.openOK), o,
 		vh.List(ch), rp.end, vh.List(fl), vh.Bool(valid), ob)
-	c.Case("run", term, s.key, len(rp.chunks) > 1 || !accepted, in)
+	pending = append(pending, pend{"run", term, s.key, len(rp.chunks) > 1 || !accepted, in})
 	if len(rp.chunks) > 1 {
 		c.Count("multi-chunk")
 	}
+	checkHeld(c, 6, "the decompression of "+s.key)
+}
+
+// ---------- recovered messages are values ----------
+type heldMsg struct {
+	key    string
+	certs  [][]byte // the certificate entries as returned (they may share memory with the library)
+	want   [][]byte // private copies taken when they were returned
+	failed bool
+}
+
+type pend struct {
+	kind, term, key string
+	nontrivial      bool
+	sample          any
+}
+
+var (
+	heldAll []*heldMsg
+	pending []pend
+)
+
+func hold(key string, certs [][]byte, msg []byte) string {
+	h := &heldMsg{key: key, certs: certs}
+	for _, x := range certs {
+		h.want = append(h.want, append([]byte{}, x...))
+	}
+	heldAll = append(heldAll, h)
+	return fmt.Sprintf("@@H%d@@", len(heldAll)-1)
+}
+
+// the Certificate message (with handshake header) that the kept entries amount to NOW (the generator never emits extensions)
+func (h *heldMsg) message() []byte {
+	var body []byte
+	for _, x := range h.certs {
+		body = append(body, byte(len(x)>>16), byte(len(x)>>8), byte(len(x)))
+		body = append(body, x...)
+		body = append(body, 0, 0)
+	}
+	m := []byte{0, byte(len(body) >> 16), byte(len(body) >> 8), byte(len(body))}
+	m = append(m, body...)
+	return append([]byte{11, byte(len(m) >> 16), byte(len(m) >> 8), byte(len(m))}, m...)
+}
+
+// checkHeld deep-compares the last n kept results (all if n <= 0) with what they were when they were returned
+func checkHeld(c *vh.Ctx, n int, after string) {
+	from := 0
+	if n > 0 && len(heldAll) > n {
+		from = len(heldAll) - n
+	}
+	for _, h := range heldAll[from:] {
+		if h.failed {
+			continue
+		}
+		for i := range h.want {
+			if !bytes.Equal(h.certs[i], h.want[i]) {
+				h.failed = true
+				d := 0
+				for d < len(h.want[i]) && d < len(h.certs[i]) && h.certs[i][d] == h.want[i][d] {
+					d++
+				}
+				c.Fail("recovered-certificate-changed/"+h.key, "a certificate recovered from a CompressedCertificate changed after a later decompression in the same process (it shares memory with a reused buffer)",
+					map[string]any{"recovered_by": h.key, "entry": i, "entry_len": len(h.want[i]), "changed_after": after},
+					fmt.Sprintf("differs from byte %d: now %x", d, h.certs[i][d:min(len(h.certs[i]), d+24)]), fmt.Sprintf("%x", h.want[i][d:min(len(h.want[i]), d+24)]))
+				break
+			}
+		}
+	}
+}
+
+func flushPending(c *vh.Ctx) {
+	checkHeld(c, 0, "the end of the run")
+	for _, p := range pending {
+		term := p.term
+		if i := strings.Index(term, "@@H"); i >= 0 {
+			j := i + 3 + strings.Index(term[i+3:], "@@")
+			var n int
+			fmt.Sscanf(term[i+3:j], "%d", &n)
+			m := heldAll[n].message()
+			s1, s2 := adler(m)
+			term = term[:i] + fmt.Sprintf("(OOk %d %d %d %s)", len(m), s1, s2, vh.Opt(len(m) <= 700, vh.Bytes(m))) + term[j+2:]
+		}
+		c.Case(p.kind, term, p.key, p.nontrivial, p.sample)
+	}
+	pending, heldAll = nil, nil
 }
 
 func genEntries(r *rand.Rand, total int) []entry {
@@ -510,6 +597,7 @@ func randCuts(r *rand.Rand, n, k int) []int {
 }
 
 func run(c *vh.Ctx) {
+	defer flushPending(c)
 	r := c.Rng
 	encs := encoders()
 	all := []uint16{2, 1, 3}
@@ -582,6 +670,8 @@ func run(c *vh.Ctx) {
 	}
 	// 0b. clients configured through the public API, reconfigured before the ClientHello is final
 	runReconfig(c, encs)
+	// 0c. live handshakes: the compressed certificate inside a handshake whose CertificateVerify/Finished must verify
+	runE2E(c, encs)
 	// 1. utlsCompressedCertificateMsg codec
 	for i := 0; i < c.N/2+8; i++ {
 		alg := uint16(r.Intn(65536))
